@@ -3,7 +3,7 @@
    nat stays Peano, N/positive stay the library inductives. No Extract Constant. *)
 Require Extraction.
 Require Import ExtrOcamlBasic.
-From BB Require Import BN Brute Diagram Checks Strict PetriNet Control Candidates Blocks ASeeds.
+From BB Require Import BN Brute Diagram Checks Strict PetriNet Control Candidates Blocks ASeeds Signed.
 Extraction Language OCaml.
 Extraction "bbmodel_core.ml"
   net_of_tables percolate_b max_traps_b min_traps_b is_trap_b sources_b attractors_b
@@ -13,5 +13,5 @@ Extraction "bbmodel_core.ml"
   pn_faithful_b restrict_pn reduce_pn pn_sources trap_program deadlock_program net_to_pn
   override forced_b successions find_drivers drivers_of_succession succession_control
   compute_candidates heuristic_retained nfvs_reduction_ok_b same_assignment_b
-  expand_block expand_aseeds
+  expand_block expand_aseeds no_neg_walk_b
   init step run depth minimal_ids find_node successors is_minimal size get.
